@@ -204,7 +204,6 @@ theorem runningmean_general (x : List Rat) (w : Nat) (hx : x ≠ []) (hw : 1 ≤
     Gen.UtilsFiltering.runningmean x (w : Int) = .ok (convWindow x w) := by
   unfold Gen.UtilsFiltering.runningmean
   simp only [kernel_eq, convolve_eq x w hx hw]
-  rfl
 
 /-- `runningmean(x, w)` for `1 ≤ w ≤ |x|` raises no error and is exactly the model's `Filter.runningMean x w` (hence, by `C20.rm_window`,
     the documented centred window `i - w/2 … i + (w-1)/2` with zeros outside, and by `C20.rm_len` of the input's length). -/
@@ -244,13 +243,11 @@ theorem runningmean_window_zero (x : List Rat) (w : Int) (hw : w ≤ 0) :
   have : w.toNat = 0 := by omega
   rw [this]
   simp only [List.replicate_zero, List.map_nil, List.length_nil, or_true, if_true]
-  rfl
 
 /-- `runningmean([], w)`: `ValueError` for every window (empty operand of `np.convolve`). -/
 theorem runningmean_empty (w : Int) : Gen.UtilsFiltering.runningmean [] w = .error .value := by
   unfold Gen.UtilsFiltering.runningmean npConvolveSame
   simp only [List.length_nil, true_or, if_true]
-  rfl
 
 /-! non-vacuity -/
 
